@@ -733,6 +733,10 @@ func c11(c *an.Ctx) {
 		}
 	})
 
+	c.Check("R-BOOL", "applyTextFilter decision table: no filter text returns the list; a selected filter field goes into exactly one of the plain / expensive / batch passes; a pass that has a field runs; an element survives iff some pass kept it; default search tokens without a filter type", 4, func(o *an.O) {
+		ruleTextFilterTable(c, o)
+	})
+
 	c.Check("R-PAIR", "index bookkeeping: filter flags, sort references and sorted nodes use the induction value of their loop; setCursors reads the first and last edge", 6, func(o *an.O) {
 		tf := c.NeedFunc(sbp, "(*connectionContext).applyTextFilter")
 		// filteredNodes = append(filteredNodes, nodes[i]) under the three flags of the same i
@@ -747,12 +751,24 @@ func c11(c *an.Ctx) {
 			if !an.IsRangeIndex(ia.Index) {
 				o.FailAt(i, "nodes is indexed by %s, not by the loop's induction value", an.Expr(ia.Index))
 			}
-			gs := strings.Join(an.GuardStrings(i.Block()), " ") + " | " + strings.Join(an.DisjunctGuards(i.Block()), " ")
-			for _, flag := range []string{" nodesToKeep[#i]", "batchedNodesToKeep[#i]", "expensiveNodesToKeep[#i]"} {
-				if !strings.Contains(gs, flag) {
-					o.FailAt(i, "an element is kept without consulting %s of the same index (guards: %s)", flag, an.Short(gs, 120))
+			// (which flags decide is evaluated by the applyTextFilter decision table; here: they are read at the same index)
+			h := an.LoopHeaderOf(i)
+			an.Instrs(tf, func(j ssa.Instruction) {
+				fia, ok := j.(*ssa.IndexAddr)
+				if !ok || an.LoopHeaderOf(j) != h {
+					return
 				}
-			}
+				st, ok := fia.X.Type().Underlying().(*types.Slice)
+				if !ok {
+					return
+				}
+				if b, ok := st.Elem().Underlying().(*types.Basic); !ok || b.Kind() != types.Bool {
+					return
+				}
+				if fia.Index != ia.Index {
+					o.FailAt(j, "an element is kept by the verdict for another index (%s instead of %s)", an.Expr(fia.Index), an.Expr(ia.Index))
+				}
+			})
 		})
 		if !found {
 			o.Fail(p.Pos(tf.Pos()), "applyTextFilter does not build the filtered list from nodes[i]")
